@@ -657,7 +657,9 @@ PROVE_ORDER = ["all", "all+opt", "pure", "inst", "inst+ufabs", "ufabs", "ring+uf
 
 
 # second pass (full budget): only the stages that profit from more time
-PROVE_ORDER_FULL_BUDGET = ["all", "all+opt", "inst", "ring+ufabs", "cone0", "cone0+opt"]
+# ("ufabs" is normally instant; it is repeated here so that a machine busy enough to starve the short round does not
+# leave a congruence-only goal undecided)
+PROVE_ORDER_FULL_BUDGET = ["ufabs", "all", "all+opt", "inst", "ring+ufabs", "cone0", "cone0+opt"]
 
 
 _CAND_RANK = {"all": 0, "inst": 1, "cone1+opt": 2, "cone1": 3, "cone0+opt": 4, "cone0": 5}
